@@ -224,8 +224,10 @@ impl TokenType {
             | Int(_) | Ident(_) | Hex(_) => 1,
             // a comment that is not yet terminated by a newline grows with the next character
             Comment(_) => 1,
+            // a `'` at the very end of the text is unknown until the next character makes it a char
+            Unknown(_) => 1,
             LParen | RParen | LBracket | RBracket | LCurly | RCurly | Eq | Neq | Le | Ge
-            | Assign | Comma | Semic | Plus | Minus | Times | Unknown(_) | Eof => 0,
+            | Assign | Comma | Semic | Plus | Minus | Times | Eof => 0,
             Char(_) => {
                 1 // this is a worst case look ahead.
             }
